@@ -20,8 +20,10 @@
 (* Grain: one step = one "ss" clock cycle (record e = "cyc"), or one       *)
 (* report of what the real link receivers made of the packet just sent     *)
 (* (e = "rx").                                                             *)
-(*  Env : start request with header and payload, PHY ready, presentation   *)
-(*        of the payload words on the data stream.                         *)
+(*  Env : start request (a one-cycle strobe) with header and payload, PHY   *)
+(*        ready, presentation of the payload words on the data stream;     *)
+(*        after the strobe the header input may change to any other header *)
+(*        (the packet is the one requested at the strobe).                 *)
 (*  Ref : expected word sequence (a function of header and payload),       *)
 (*        position in it, payload bytes consumed; free: up to maxlat idle  *)
 (*        cycles before HPSTART, when payload words are taken.             *)
@@ -46,7 +48,8 @@ HeaderWords(dw, crc16, lc) ==
 
 \* the payload part as a stream of <<symbol, isK>> pairs, then packed four to a word
 DppSyms(pl) ==
-    [i \in 1..Len(pl) |-> <<pl[i], 0>>] \o [i \in 1..4 |-> <<Crc32Of(pl)[i], 0>>]
+    LET crc == Crc32Of(pl) IN
+    [i \in 1..Len(pl) |-> <<pl[i], 0>>] \o <<<<crc[1], 0>>, <<crc[2], 0>>, <<crc[3], 0>>, <<crc[4], 0>>>>
       \o <<<<END, 1>>, <<END, 1>>, <<END, 1>>, <<EPF, 1>>>>
 PadToWord(sy) == sy \o [i \in 1..((4 - (Len(sy) % 4)) % 4) |-> <<IDL, 0>>]
 PackWords(sy) ==
@@ -72,8 +75,9 @@ DataHeaderBytes(addr, ep, dseq, len, dir) ==
 (* also hdr = [dw, seq, rsv, hub, dl, df] (or params = [addr, ep, dseq,   *)
 (* len, dir]), pl (payload bytes), free (sequence number assigned by the   *)
 (* DUT, not by the Env), maxlat, nodone (the DUT has no `done` output).    *)
+NWords(y) == 5 + Len(y.tail)      \* words of the packet in progress
 TxInit == [st |-> "idle", dw |-> <<>>, crc16 |-> 0, lc |-> 0, free |-> FALSE, pl |-> <<>>,
-           isdata |-> FALSE, delayed |-> FALSE, tail |-> <<>>, k |-> 0, n |-> 0, lat |-> 0, maxlat |-> 0,
+           isdata |-> FALSE, delayed |-> FALSE, tail |-> <<>>, k |-> 0, lat |-> 0, maxlat |-> 0,
            consumed |-> 0, obsseq |-> 0, npk |-> 0, nodone |-> FALSE]
 
 \* a start record carries either the header itself or the parameters DataPacketTransmitter builds it from
@@ -88,7 +92,7 @@ Load(x, r) ==
         tl == IF dp THEN DppWords(h.dl = 1, r.pl) ELSE <<>>
     IN [x EXCEPT !.st = "busy", !.dw = h.dw, !.crc16 = HdrCrc16(h.dw),
                  !.lc = LinkCtl(h.seq, h.rsv, h.hub, h.dl, h.df), !.free = r.free, !.pl = r.pl,
-                 !.isdata = dp, !.delayed = (h.dl = 1), !.tail = tl, !.k = 1, !.n = 5 + Len(tl),
+                 !.isdata = dp, !.delayed = (h.dl = 1), !.tail = tl, !.k = 1,
                  !.lat = 0, !.maxlat = r.maxlat, !.consumed = 0, !.npk = x.npk + 1, !.nodone = r.nodone]
 
 \* state in which the outputs of the cycle are judged: a request is accepted in its own cycle
@@ -127,6 +131,7 @@ TakeClause(y, r) ==
     LET m == MaskLen(r.dsv) IN
     IF ~r.dsr \/ r.dsv = 0 THEN "ok"
     ELSE IF y.st = "idle" THEN "tx_payload_taken_while_idle"
+    ELSE IF ~y.isdata \/ y.delayed THEN "tx_payload_taken_without_payload_to_send"
     ELSE IF m = 99 \/ y.consumed + m > Len(y.pl) THEN "env_payload_presentation"
     ELSE IF SubSeq(r.dsd, 1, m) # SubSeq(y.pl, y.consumed + 1, y.consumed + m) THEN "env_payload_presentation"
     ELSE IF m < 4 /\ y.consumed + m # Len(y.pl) THEN "env_payload_presentation"
@@ -139,9 +144,9 @@ TxFailingE(y, r) ==
         (IF y.k = 1 /\ y.lat < y.maxlat THEN (IF r.done THEN "tx_done_early" ELSE TakeClause(y, r))
          ELSE IF y.k = 1 THEN "tx_start_latency" ELSE "tx_gap_in_packet")
     ELSE IF WordClause(y, r.ow) # "ok" THEN WordClause(y, r.ow)
-    ELSE IF ~y.nodone /\ r.done # (y.k = y.n /\ r.rdy) THEN "tx_done"
+    ELSE IF ~y.nodone /\ r.done # (y.k = NWords(y) /\ r.rdy) THEN "tx_done"
     ELSE IF TakeClause(y, r) # "ok" THEN TakeClause(y, r)
-    ELSE IF y.k = y.n /\ r.rdy /\ y.isdata /\ ~y.delayed
+    ELSE IF y.k = NWords(y) /\ r.rdy /\ y.isdata /\ ~y.delayed
             /\ y.consumed + (IF r.dsr THEN MaskLen(r.dsv) ELSE 0) # Len(y.pl) THEN "tx_payload_not_consumed"
     ELSE "ok"
 
@@ -152,7 +157,7 @@ TxNextE(y, r) ==
        ELSE IF ~r.ow.v THEN [y1 EXCEPT !.lat = y.lat + 1]
        ELSE IF ~r.rdy THEN y1
        ELSE LET y2 == IF y.k = 5 THEN [y1 EXCEPT !.obsseq = Hi16(r.ow) % 8] ELSE y1
-            IN IF y.k = y.n THEN [y2 EXCEPT !.st = "idle"] ELSE [y2 EXCEPT !.k = y.k + 1]
+            IN IF y.k = NWords(y) THEN [y2 EXCEPT !.st = "idle"] ELSE [y2 EXCEPT !.k = y.k + 1]
 
 -----------------------------------------------------------------------------
 (* Round trip on the real receivers (record e = "rx", taken after the      *)
@@ -179,9 +184,11 @@ RxFailing(x, r) ==
     ELSE "ok"
 
 \* verdict (first failing clause or "ok") and successor state of one record
-Judge(x, r) ==
+\* (y = Eff(x, r) is passed in, bound once by the caller: loading a packet computes its CRCs)
+JudgeE(x, y, r) ==
     IF r.e = "rx" THEN [f |-> RxFailing(x, r), n |-> x]
-    ELSE LET y == Eff(x, r) IN [f |-> TxFailingE(y, r), n |-> TxNextE(y, r)]
+    ELSE [f |-> TxFailingE(y, r), n |-> TxNextE(y, r)]
+EffOf(x, r) == IF r.e = "rx" THEN x ELSE Eff(x, r)
 
 -----------------------------------------------------------------------------
 (* A receiver written from the standard, for the round-trip theorem on the *)
